@@ -119,9 +119,6 @@ func (e *Explorer) noteConjunct(t *Term) {
 	}
 	for _, v := range termVars(t) {
 		if v.W == 8 && v.Sort == SBV {
-			if !e.complexVars[v] && v.Name == "b[0]" && len(e.stats.Assumes) < 80 {
-				e.stats.Assumes["DBGC "+dbgTerm(t, 6)+" @ "+e.whereFn()]++
-			}
 			e.complexVars[v] = true
 		}
 	}
